@@ -32,6 +32,26 @@ CLAIMED = {
    note='Trusted: as C08/C16 plus platform regcomp/regexec used as oracle on both sides; RFC 2047 full factorisation not proved (see C16).',
    technique='Coq proof (sorted-array binary search, stability of the sort, iff over names/fields) + differential correspondence with platform regexec',
    ref='DESIGN 6 C10'),
+ 'C09': dict(
+   text='Coq theorems about the model of the flag sets (two 26-bit words), message_flags_parse/str, msgflags and maildir_genname: written flags = letters '
+        'after the last ":2," sorted and de-duplicated; invalid suffix = error; S set/cleared exactly on new->cur / cur->new with every other flag kept; '
+        '"flags" adds exactly its letters; candidate names for different counter values differ (decimal rendering injective, counter wrap mod 2^32 included) and the '
+        'O_EXCL retry loop returns within |E|+1 attempts a name not in any set E of existing names. Tied by runs of the binary under the interposer with '
+        'clock/pid/host/random pinned (one message per run, 0-5 pre-existing candidate names, empty and non-empty), exact name compared with the model.',
+   note='Trusted: as above plus shim/libvfio.so (pinning, tracing). The mtime and never-replace clauses at system-call level are also covered by C01/C02. '
+        'maildir/subdir inference through pathslice: primitive proved under C18, the composed C09_destination statement is covered by correspondence only. '
+        'Genuine defect F-05 (flags parsed from the whole path) repaired by fix: commit d135c7f.',
+   technique='Coq proof (bit-level lemmas via testbit, pigeonhole on distinct candidates, injectivity of decimal rendering) + pinned-environment differential runs',
+   ref='DESIGN 6 C09'),
+ 'C18': dict(
+   text='Coq theorems: pathjoin, bounded copy, pathslice (single-pass copy loop with its bufsiz accounting) and the generated name return either an error or '
+        'exactly the intended string (pathslice = the selected components of the path cut before every "/"), never a prefix. Tied by exhaustive differential '
+        'runs of pathslice/pathjoin (all component shapes, ranges, buffer sizes; plain + ASan with exact-size buffers) and by binary runs with maildir path, '
+        'interpolated destination, message path, host name, HOME, TMPDIR at every length in a window around PATH_MAX/NAME_MAX with decoys at truncations.',
+   note='The composition of the primitives along each path-carrying flow is not modelled in Coq (C18_no_truncated_path of DESIGN is not proved); it is tied by the '
+        'binary window runs. Trusted: driver, shim host-name pinning.',
+   technique='Coq proof (loop invariant relating the copy loop to the component decomposition) + exhaustive differential correspondence + boundary-window runs',
+   ref='DESIGN 6 C18'),
 }
 
 ALL = ['C%02d' % i for i in range(1, 19)]
